@@ -18,6 +18,8 @@ mod variants;
 mod version;
 #[cfg(anydb_verif)]
 pub mod verif_hooks;
+#[cfg(anydb_verif)]
+pub mod verif_locks;
 
 use variants::*;
 
